@@ -325,4 +325,9 @@ Section Follow.
   Theorem ok_items2_follow l ps ex F F' : forallb subg l = true -> R F F' ->
     ok_items2 cx ps ex l F = ok_items2 cx ps ex l F'.
   Proof. intros SG HR. exact (proj2 (follow_all (lsize2 l)) l (le_n _) SG ps ex F F' HR). Qed.
+
+  (** the same without the auxiliary relation: a common prefix that contains a stopper *)
+  Corollary ok_item2_stopper i ps ex (G : str) Z Z' : subg i = true -> has_stopper cx G = true ->
+    ok_item2 cx ps ex i (G ++ Z) = ok_item2 cx ps ex i (G ++ Z').
+  Proof. intros SG H. apply ok_item2_follow; [exact SG|apply R_of_stopper; exact H]. Qed.
 End Follow.
